@@ -63,6 +63,9 @@ func Generate(r *sim.Rng, prop, tier string, idx int) *sim.Case {
 	if backendKind == 1 && r.Chance(1, 5) {
 		c.Knobs["redis_clock_skew_ns"] = int64(sim.Pick(r, -time.Hour, -3*time.Second, 3*time.Second, time.Hour))
 	}
+	if r.Chance(1, 4) {
+		c.Knobs["reuse_buffers"] = 1 // callers overwrite their value buffers after every call
+	}
 	if r.Chance(1, 3) {
 		c.Knobs["caller_versions"] = 1 // Create/Put are handed records that carry a version read earlier
 	}
